@@ -286,7 +286,7 @@ def check_time_grid(ctx, case, res):
                     return
                 ln_f = float(Fraction(ln[0], ln[1]))
                 got = sweeps[pos][2]
-                if abs(got - ln_f) > 4 * ulp(ln_f) or (dyadic and case["order"] == "2nd" and frac(got) != Fraction(ln[0], ln[1])):
+                if abs(got - ln_f) > 16 * ulp(ln_f) or (dyadic and case["order"] == "2nd" and frac(got) != Fraction(ln[0], ln[1])):
                     ctx.fail("correspondence", "c10:sweep-length", f"sweep {pos}: real length {got!r} model {ln_f!r}", case=cj)
                 if case["callable_H"]:
                     want = float(frac(t) + Fraction(mid[0], mid[1]))
